@@ -16,6 +16,19 @@ func Dump(p *Prog, what string) {
 				fmt.Printf("%-60s %s\n", FuncName(f), li.Entry[f])
 			}
 		}
+	case "effects":
+		ei := ComputeEffects(p)
+		for _, f := range p.Funcs {
+			e := ei.Of[f]
+			var rs []string
+			for k := range e.Ret {
+				rs = append(rs, e.Ret[k].Describe(f)+"/ident"+e.RetIdent[k].Describe(f))
+			}
+			fmt.Printf("%-55s writes=%-22s ret=%v\n", FuncName(f), e.Writes.Describe(f), rs)
+			for _, s := range e.Sites {
+				fmt.Printf("      write at %s: %s\n", p.InstrPos(s.Instr), s.What)
+			}
+		}
 	case "sites":
 		for _, f := range p.Funcs {
 			s, c := CallSites(p, f)
